@@ -372,6 +372,7 @@ config_interpolate_early(struct config *cf, const char *template)
 	    .arg	= cf,
 	    .eternal	= cf->arena.eternal_scope,
 	    .scratch	= cf->arena.scratch,
+	    .path	= cf->path,
 	    .flags	= INTERPOLATE_IGNORE_LOOKUP_ERRORS,
 	});
 	cf->interpolate.early = 0;
@@ -895,6 +896,7 @@ config_parse_directory(struct config *cf, struct variable_value *val)
 	    .arg	= cf,
 	    .eternal	= cf->arena.eternal_scope,
 	    .scratch	= cf->arena.scratch,
+	    .path	= cf->path,
 	    .lno	= tk->tk_lno,
 	});
 	if (path == NULL) {
@@ -926,6 +928,7 @@ config_default_build_dir(struct config *cf, const char *name)
 		.arg		= cf,
 		.eternal	= cf->arena.eternal_scope,
 		.scratch	= cf->arena.scratch,
+		.path		= cf->path,
 	});
 	if (path == NULL)
 		return NULL;
